@@ -30,7 +30,7 @@ PStep(s) ==
      /\ \/ /\ P_LockAcqW /\ Kinds(s) = <<"acqw">>
            /\ pwin' = <<s.evs[1].start, s.evs[1].end - s.evs[1].start>> /\ RingIs(s.evs[1])
         \/ /\ P_LockCommit /\ Kinds(s) = <<"produce">>
-           /\ s.evs[1].n = parg[2] /\ RingIs(s.evs[1])
+           /\ s.evs[1].n = parg[2] /\ s.evs[1].ntags = parg[2] /\ RingIs(s.evs[1])
         \/ /\ P_LockFree /\ Kinds(s) = <<>>
         \/ /\ P_LockWaitW
            /\ Kinds(s) = IF ppc' = "unlocked:waitw" THEN <<"cvret">> ELSE <<>>
@@ -60,18 +60,23 @@ CStep(s) ==
         \/ s.cmd.op = "drop" /\ C_CmdDrop /\ Kinds(s) = <<>>
   \/ /\ s.pt = "lock"
      /\ \/ /\ C_LockAcqR /\ Kinds(s) = <<"acqr">>
-           /\ cwin' = <<s.evs[1].start, s.evs[1].end - s.evs[1].start>> /\ RingIs(s.evs[1])
+           /\ cwin'[1] = s.evs[1].start /\ cwin'[2] = s.evs[1].end - s.evs[1].start /\ RingIs(s.evs[1])
+           /\ s.evs[1].ntags = Cardinality(cwin'[3])
         \/ /\ C_LockConsume /\ Kinds(s) = <<"consume">>
            /\ s.evs[1].n = carg[1] /\ RingIs(s.evs[1])
         \/ /\ C_LockWaitR
            /\ Kinds(s) = IF cpc' = "unlocked:waitr" THEN <<"cvret">> ELSE <<>>
         \/ /\ C_LockEof /\ Kinds(s) = <<"acqr">>
            /\ s.evs[1].end - s.evs[1].start = cgot' /\ RingIs(s.evs[1])
+           /\ s.evs[1].ntags = Cardinality(WinTags(rpos, used))
   \/ /\ s.pt = "cvwait" /\ C_CvWaitR(s.g)
      /\ Kinds(s) = IF cpc' = "unlocked:waitr" THEN <<"cvret">> ELSE <<>>
   \/ /\ s.pt = "unlocked"
      /\ \/ /\ C_UnlAcqR /\ Kinds(s) = <<"ret">> /\ s.evs[1].op = "acqr"
-           /\ cwin = <<s.evs[1].start, s.evs[1].len>>
+           /\ cwin[1] = s.evs[1].start /\ cwin[2] = s.evs[1].len
+           \* the tags handed out with the window: [[position, id], ...]
+           /\ Len(s.evs[1].tags) = Cardinality(cwin[3])
+           /\ {<<s.evs[1].tags[i][1], s.evs[1].tags[i][2]>> : i \in 1 .. Len(s.evs[1].tags)} = cwin[3]
         \/ /\ C_UnlConsume /\ Kinds(s) = <<"ret">> /\ s.evs[1].op = "get"
         \/ /\ C_UnlWaitR /\ Kinds(s) = <<"ret">> /\ s.evs[1].op = "waitr"
            /\ s.evs[1].never = (cret' = "never")
@@ -90,7 +95,7 @@ CStep(s) ==
 Reset(s) ==
   /\ s.pt = "reset" /\ s.cap = Cap
   /\ rpos' = 0 /\ wpos' = 0 /\ used' = 0 /\ mem' = [c \in Cells |-> 0]
-  /\ produced' = 0 /\ consumed' = 0
+  /\ produced' = 0 /\ consumed' = 0 /\ tags' = {}
   /\ wAlive' = TRUE /\ rAlive' = TRUE
   /\ ppc' = "start" /\ pwin' = <<>> /\ parg' = <<>> /\ pgot' = 0 /\ pclosed' = FALSE
   /\ pret' = NoRet /\ pcalls' = 0
